@@ -1,7 +1,7 @@
 """Registry entry, manifest texts for C03."""
 
 ENTRY = {'parts': [{'scenario': 'scenarios.s_pool', 'chunk': 6}],
-         'quick': {'runs': 2500, 'budget': 55}, 'thorough': {'runs': 150000, 'budget': 1200}}
+         'quick': {'runs': 2500, 'budget': 40}, 'thorough': {'runs': 150000, 'budget': 1200}}
 
 TEXT = {'level': 'Seeded search over task sequences x quotas x message consumption orders with a wiretap on every '
           "worker's result pipe (messages decoded after the fact): per worker the stream is (ACK READY)* "
